@@ -1,7 +1,9 @@
 /- Native model driver for engine `timer` (C17). One op per line on stdin, one observation per line on stdout.
 
-   reset timer role= slot= thr= quick= slow= gen=     → ok          (new RoundTimer; all values in ns)
-   arm h= r= at=                                       → f=<rounds of the callbacks delivered since the previous op>
+   reset timer role= slot= thr= quick= slow= gen= [hd=-] → ok        (new RoundTimer built with handler 0, or with nil when hd=-; all values in ns)
+   arm h= r= at=                                       → f=<round@handler of the callbacks delivered since the previous op>
+   register k=<n|-> at=                                → f=…         (OnTimeout(handler n) / OnTimeout(nil))
+   netdl role= slot= thr= quick= slow= gen= h= r=      → abs <deadline ns> | rel <ns>   (real beacon.Network stratum; stateless)
    cancel at=                                          → f=…
    end at=                                             → f=…
    dur role= slot= thr= quick= slow= r=                → <ns>        (duration part of RoundTimeout; stateless)
@@ -20,7 +22,7 @@ inductive DState where
 def num (ws : List String) (k : String) : Option Nat := (kv ws k).bind String.toNat?
 
 def showFires (fs : List Fire) : String :=
-  if fs.isEmpty then "f=-" else "f=" ++ String.intercalate "," (fs.map fun f => toString f.round)
+  if fs.isEmpty then "f=-" else "f=" ++ String.intercalate "," (fs.map fun f => s!"{f.round}@{f.handler}")
 
 def b01 (b : Bool) : String := if b then "1" else "0"
 
@@ -45,7 +47,9 @@ def stepLine (st : DState) (line : String) : DState × String :=
   | "reset" :: "timer" :: _ =>
     match num ws "role", num ws "slot", num ws "thr", num ws "quick", num ws "slow", num ws "gen" with
     | some role, some slot, some thr, some quick, some slow, some gen =>
-      (.timer { role := role, slotDur := slot, quickThr := thr, quick := quick, slow := slow, genesis := gen } Timer.init, "ok")
+      let c : Cfg := { role := role, slotDur := slot, quickThr := thr, quick := quick, slow := slow, genesis := gen }
+      let h0 : Option Nat := if kv ws "hd" = some "-" then none else some 0
+      (.timer c (Timer.step c Timer.init (.register h0)).1, "ok")
     | _, _, _, _, _, _ => (.none, "bad-op")
   | "reset" :: "ctl" :: _ =>
     match num ws "cap", num ws "cutoff" with
@@ -56,6 +60,21 @@ def stepLine (st : DState) (line : String) : DState × String :=
     | some role, some slot, some thr, some quick, some slow, some r =>
       (st, toString (roundDuration { role := role, slotDur := slot, quickThr := thr, quick := quick, slow := slow, genesis := 0 } r))
     | _, _, _, _, _, _ => (st, "bad-op")
+  | "netdl" :: _ =>
+    match num ws "role", num ws "slot", num ws "thr", num ws "quick", num ws "slow", num ws "gen", num ws "h", num ws "r" with
+    | some role, some slot, some thr, some quick, some slow, some gen, some h, some r =>
+      let c : Cfg := { role := role, slotDur := slot, quickThr := thr, quick := quick, slow := slow, genesis := gen }
+      (st, match roleBase c with
+           | some _ => s!"abs {deadline c h r 0}"
+           | none => s!"rel {perRound c r}")
+    | _, _, _, _, _, _, _, _ => (st, "bad-op")
+  | "register" :: _ =>
+    match st, num ws "at" with
+    | .timer c s, some t =>
+      let k : Option Nat := (kv ws "k").bind String.toNat?
+      let (s1, fs) := advance c s t
+      ((.timer c (Timer.step c s1 (.register k)).1), showFires fs)
+    | _, _ => (st, "bad-op")
   | "arm" :: _ =>
     match st, num ws "h", num ws "r", num ws "at" with
     | .timer c s, some h, some r, some t =>
